@@ -23,7 +23,8 @@ CLAIMS = {
                  "5 (C01), 4.2", "Unmodelled: slicing an array of 2^31 or more elements. Comparison nodes delegate to C10's model.",
                  "Coq proof (interpreter model = denotational semantics) + model/spec/implementation correspondence"),
     "C02": claim("Theorems (Props/C02.v): the sorting routine behind sort/sort_by is a permutation, ascending on total preorders and stable; "
-                 "max_by/min_by return an input element; merge is right-biased; length/reverse on code points; keys/values pairwise; to_number is "
+                 "sort_by evaluates its expression once per element in order and returns the elements in a stable ascending order of those keys; max_by/min_by return the "
+                 "first element whose key no other key exceeds/undercuts; integers are never NaN as doubles; merge is right-biased; length/reverse on code points; keys/values pairwise; to_number is "
                  "number-or-null; avg [] = null; map keeps length and evaluates once per element in order; Ord for Variable is a total preorder on "
                  "arrays of numbers (no NaN) and of strings, so sort is ascending and stable there and max/min return an extremal member; "
                  "starts_with/ends_with/contains = prefix/suffix/substring (member up to ==); join = members separated by the glue; not_null = first "
@@ -31,17 +32,23 @@ CLAIMS = {
                  "float printing are decided by correspondence of the 26 modelled bodies with "
                  "Function::evaluate on seeded well-typed tuples (arrays > 20 elements with duplicate keys, several Unicode planes).",
                  "5 (C02)", "Partial: IEEE arithmetic facts of abs/ceil/floor/sum/avg and the float-printing model (zmij) are validated, not proved."),
-    "C03": claim("Theorems (Props/C03.v): see level text in DESIGN.md 5 (C03): the generated binding-power table has the documented order; the "
-                 "reference parser (same functions with the non-sentence branches closed) is the sentence oracle; deviations of the code from it are "
-                 "listed known findings. Correspondence: parse trees and error positions of jmespath::parse vs the model on grammar-directed "
+    "C03": claim("Theorems (Props/C03.v): the generated binding-power table has the documented order; soundness: whatever the reference parser "
+                 "accepts lexes to the flattening of a well-formed, binding-power-respecting, disambiguated syntax tree of the grammar (Spec/Grammar, Prec, Disamb) "
+                 "and the returned tree is its abstract tree; the code's parser is sound for the grammar extended by the four recorded deviation forms; "
+                 "completeness (any table with the documented order): every such tree is accepted with its abstract tree, by the reference parser always, by "
+                 "the code outside the one recorded deviation class; exactness: the reference parser accepts iff the expression lexes to such a tree; the "
+                 "disambiguated grammar is unambiguous; the code builds the reference parser's tree on every expression of the language outside the deviation "
+                 "class; lexer soundness: the token list is a segmentation of the expression into lexemes that spell their tokens. Correspondence: parse trees and error positions of jmespath::parse vs the model on grammar-directed "
                  "sentences, one-token and one-character near misses, token soup, lexical edge cases; model vs reference parser on the same stream.",
-                 "5 (C03), 2.5, 4.1", "Partial: soundness/completeness of the reference parser w.r.t. the CST grammar is not machine-checked yet."),
+                 "5 (C03), 2.5, 4.1", "Partial: the converse agreement (what the code accepts inside the grammar the reference parser accepts), re-association of arbitrary derivations and lexer completeness are not theorems; rejection by the code is tied to the reference parser by correspondence."),
     "C04": claim("Theorems (Props/C04.v): the binding-power table extracted from lexer.rs on this run satisfies the documented order and the "
                  "projection-stop threshold (any change of relative order breaks this obligation; an order-preserving renumbering does not); "
                  "Pratt invariant of the parser model: an operand parsed at binding power rbp is never followed by an operator binding tighter; "
-                 "an accepted expression is one complete operand followed by the end of the input. Correspondence: every ordered pair and sampled "
-                 "triples of infix/prefix/postfix operators around atomic operands, through parse (trees) and search (results), model vs implementation "
-                 "and model vs reference parser.", "5 (C04), 4.1.1", "Partial as C03."),
+                 "an accepted expression is one complete operand followed by the end of the input; the returned tree respects the binding powers and (reference "
+                 "parser) extends every operand and projection maximally; the rules dictate exactly one tree; the code builds the dictated tree outside the "
+                 "recorded deviation class; only the order of the binding powers matters. Correspondence: every ordered pair and sampled "
+                 "triples of infix/prefix/postfix operators around atomic operands, all triples and sampled 4-5-chains of postfix forms, through parse (trees) "
+                 "and search (results), model vs implementation and model vs reference parser.", "5 (C04), 4.1.1", "Partial as C03."),
     "C05": claim("Theorems (Props/C05.v): slices, negative indexes and signature validation return for all inputs (no overflow, no out-of-bounds "
                  "index, no loop); evaluation of core trees returns within fuel linear in the tree height for every document; compile never traps and "
                  "never exhausts its fuel (JSON reader, lexer, all 17 parser functions, any table), so compile returns an expression or a parse error; "
@@ -52,35 +59,42 @@ CLAIMS = {
     "C06": claim("Theorems (Props/C06.v): the signature table extracted from functions.rs/runtime.rs on this run means the specification's table "
                  "(sound type-equivalence check); is_valid = specified type membership; validate = declarative decision (arity first, first "
                  "ill-typed position); every builtin validates first and afterwards never reports a signature error of its own; end to end: for every "
-                 "entry of the generated registration list the check of a call equals the verdict read from the specification's table alone. "
+                 "entry of the generated registration list the check of a call equals the verdict read from the specification's table alone; the result of "
+                 "an accepted call has the declared result type (all 26 builtins). "
                  "Correspondence: decision table over 26 builtins x arities x 22 type classes, judged against that verdict (specfn).", "5 (C06)", "Known finding: the code's `any` admits expression references."),
     "C07": claim("Theorems (Props/C07.v, all inputs): the model of variable.rs::slice/adjust_slice_endpoint and of the Index arm equals the "
                  "closed-form Python/JMESPath slice rule; never traps or runs out of fuel; closed form = membership characterisation. "
-                 "Correspondence: exhaustive small scope + random i32 triples, debug and release, plus Python's own list slicing as a second oracle.",
+                 "Correspondence: exhaustive small scope + random i32 triples on Variable::slice, every spelling of the bracket through compile + search, "
+                 "debug and release, plus Python's own list slicing as a second oracle.",
                  "5 (C07), 4.3", "Assumes array length < 2^31.", "Coq proof (model = closed-form slice spec) + model/implementation correspondence"),
     "C08": claim("Theorems (Props/C08.v): identity query returns the document; objects keep key order and the last duplicate; a library value "
                  "survives the serializer unchanged. Correspondence with an independent Python oracle computed from the JSON text: exact integers, "
                  "exact doubles in the 15-digit/+-22 class, <= 2 ulp otherwise, strings, order, duplicates, re-parse equal, Value round trips.",
                  "5 (C08)", "Partial: serde_json's number reader and zmij's printer are third-party code, modelled exactly and validated, not proved."),
-    "C09": claim("Theorems (Props/C09.v): the raw-string spelling of every backslash-free string lexes to the literal holding exactly that string; "
-                 "unquoted identifiers lex to their name; an unterminated quoted form is never closed. Correspondence with an independent expectation "
+    "C09": claim("Theorems (Props/C09.v): every spellable raw string, every JSON spelling of a name as quoted identifier and string literal, every "
+                 "float-free JSON value as backtick literal evaluate to themselves; unquoted identifiers lex to their name; an unterminated quoted form is "
+                 "never closed; lexer soundness for every expression: each token stands at the byte offset of a lexeme that spells it (raw strings with only the "
+                 "quote unescaped, backtick literals as the JSON value of their text with only the backtick unescaped, quoted identifiers as the string their "
+                 "JSON spelling denotes), and the token list segments the expression. Correspondence with an independent expectation "
                  "computed in Python (raw-string, backtick-literal and quoted-identifier round trips over delimiters, backslashes, controls and astral "
                  "characters; exhaustive delimiter/backslash juxtapositions up to length 4/6).",
-                 "5 (C09)", "Partial: strings with backslashes, backtick literals and quoted identifiers (JSON decoding) are decided by correspondence."),
+                 "5 (C09)", "Partial: literals holding floating-point numerals (text to double) are decided by correspondence."),
     "C10": claim("Theorems (Props/C10.v): == is structural (numbers by tolerant double equality, arrays element-wise, objects by keys and members, "
                  "type-gated), reflexive, symmetric (incl. IEEE lemmas on SpecFloat); != is its negation; ordering is boolean iff both numbers, is the "
-                 "exact IEEE order; trichotomy and <= decomposition for well-separated numbers. Correspondence + the laws evaluated on the implementation.",
+                 "exact IEEE order; trichotomy and <= decomposition for well-separated numbers; every 64-bit integer converts to a finite double. "
+                 "Correspondence (Variable::compare and the operators through compile + search, incl. one stored value on both sides) + the laws evaluated on the implementation.",
                  "5 (C10), 4.4"),
     "C11": claim("Theorems (Props/C11.v): for all trees (function calls included), registries, fuel and offsets: pipe/sub-expression composition, "
                  "projections = filter non-null of the per-element results in order, filter = per-element predicate, multi-select = tuple/record of "
                  "member results, !/&&/|| truth tables. Metamorphic check of the same laws on the implementation + correspondence.", "5 (C11)"),
     "C12": claim("Theorems (Props/C12.v): line/column = zero-based line and character column of any character-boundary offset; arity/type/"
                  "unknown-function errors are located at the call's parenthesis, invalid-slice inside the slice; a successful evaluation restores the "
-                 "error cursor; every failure of compile is a parse error and every failure of search a runtime error; Display's location block puts "
+                 "error cursor; every failure of compile is a parse error whose offset is the byte length of a prefix of the expression (so it lies on a character "
+                 "boundary and its line/column are those of that offset) and every failure of search a runtime error; Display's location block puts "
                  "the caret under the character at the reported offset (model of errors.rs Display). Correspondence on class, kind, offset, line, "
                  "column, payload of failing expressions and (expression, document) pairs; Display's block vs the model on arbitrary "
                  "(expression, line, column); header line and reason prefix re-rendered independently.",
-                 "5 (C12)", "Partial: offsets of parse errors and the reason texts are decided by correspondence."),
+                 "5 (C12)", "Partial: which token a parse error points at and the reason texts are decided by correspondence."),
     "C13": claim("Theorems (Props/C13.v) over the history model: compile deterministic; a search observes only its handle's text, its runtime's "
                  "registry and its document; searches leave no trace; clones and re-used expressions behave like fresh ones. Correspondence on seeded "
                  "histories + the purity law evaluated on the implementation + input value unchanged.", "5 (C13)"),
